@@ -134,11 +134,18 @@ class Proxy;
 namespace detail {
 constexpr int kMaxSlots = 128;
 extern int gCurExec[kMaxSlots];  // per fiber slot: tag of the proxy whose job is running (0: none)
+extern std::uint64_t gCurJob[kMaxSlots];  // per fiber slot: (tag << 32 | 1 + index) of the proxied job that is running (0: none)
 }  // namespace detail
 
 inline int CurrentExec() noexcept {
   const int s = Fiber();
   return s >= 0 && s < detail::kMaxSlots ? detail::gCurExec[s] : 0;
+}
+
+// Identity of the proxied job the calling fiber is running in (0: none). Two pieces of code that see the same value run inside one Call.
+inline std::uint64_t CurrentJob() noexcept {
+  const int s = Fiber();
+  return s >= 0 && s < detail::kMaxSlots ? detail::gCurJob[s] : 0;
 }
 
 struct JobRecord {
